@@ -550,6 +550,11 @@ _mk_send('send_episodic_component_state_report', SE, 'StateEventService', 'send_
 _mk_send('send_episodic_context_report', CS, 'ContextService', 'send_episodic_context_report', 'EpisodicContextReport',
          as_node=True)
 _mk_send('send_realtime_samples_report', WS, 'WaveformService', 'send_realtime_samples_report', 'WaveformStream', fill=None)
+# the periodic counterparts: same protocol, body filled by fill_periodic_report_body from the retained entries
+for _fn, _cls in (('send_periodic_metric_report', 'PeriodicMetricReport'), ('send_periodic_alert_report', 'PeriodicAlertReport'),
+                  ('send_periodic_operational_state_report', 'PeriodicOperationalStateReport'),
+                  ('send_periodic_component_state_report', 'PeriodicComponentReport')):
+    _mk_send(_fn, SE, 'StateEventService', _fn, _cls, fill='fill_periodic_report_body')
 
 
 # ---------------------------------------------------------------------------------------------------------------
